@@ -71,11 +71,12 @@ def rand_body(rng, n):
 
 class Fields:
     """Field lines in wire order + the map a recipient must end up with (computed from the structured lines, not by re-parsing)."""
-    def __init__(self):
+    def __init__(self, response=False):
         self.items = []      # (name, value as rendered (untrimmed), raw line bytes, list_valued)
+        self.response = response     # HttpClient: repeated `Connection` lines combine (RFC 9110 5.3), everything else is last-wins
 
     def add(self, rng, name, value, list_valued=False, pad=True, at=None):
-        l = name + (rng.choice([b":", b": ", b":  ", b":\t", b" :"]) if pad else b": ") + value
+        l = name + (rng.choice([b":", b": ", b":  ", b":\t", b": \t"]) if pad else b": ") + value
         if pad:
             l += rng.choice([b"", b"", b" ", b"\t ", b"  "])
         item = (name, value, l, list_valued)
@@ -95,7 +96,9 @@ class Fields:
             v = trim(value)
             for i, (k, old) in enumerate(m):
                 if lower(k) == lower(name):
-                    if lv:
+                    if self.response and lower(name) == b"connection":
+                        m[i] = (k, old + b", " + v)
+                    elif lv:
                         if v != b"":
                             m[i] = (k, v if old == b"" else old + b", " + v)
                     else:
@@ -109,8 +112,8 @@ class Fields:
 RESERVED = {b"content-length", b"transfer-encoding", b"host", b"upgrade", b"connection", b"expect"}
 
 
-def rand_fields(rng, fields, request):
-    n = rng.choice([0, 1, 2, 3, 5, 8])
+def rand_fields(rng, fields, request, small=False):
+    n = rng.choice([0, 1, 1, 2]) if small else rng.choice([0, 1, 2, 3, 5, 8])
     for _ in range(n):
         k = rng.below(12)
         if k == 0 and fields.map:
@@ -119,11 +122,11 @@ def rand_fields(rng, fields, request):
         elif k == 1 and request:
             name = rng.choice([b"Via", b"via", b"X-Forwarded-For", b"Forwarded"])
         else:
-            name = rand_token(rng)
+            name = rand_token(rng, 1, 4 if small else 10)
         if lower(name) in RESERVED:
             continue
         lv = request and lower(name) in (b"via", b"x-forwarded-for", b"forwarded")
-        fields.add(rng, name, rand_value(rng), list_valued=lv)
+        fields.add(rng, name, rand_value(rng)[:6 if small else 64], list_valued=lv)
 
 
 def hex_size(rng, n):
@@ -181,7 +184,7 @@ def render_chunked(rng, body):
     return w + b"\r\n"
 
 
-def gen_response(rng, big=False):
+def gen_response(rng, big=False, small=False):
     """(wire bytes of the final response, expected canonical response, method, close_delimited)"""
     method = rng.choice([b"GET", b"GET", b"POST", b"HEAD", b"PUT", b"get"])
     version = rng.choice([b"1.1", b"1.1", b"1.0"])
@@ -192,10 +195,16 @@ def gen_response(rng, big=False):
         sl, text = b"HTTP/" + version + b" " + (b"%03d" % status if rng.chance(1, 2) else b"%d" % status), b""
     else:
         sl, text = b"HTTP/" + version + b" " + (b"%03d" % status) + b" " + reason, reason
-    fields = Fields()
-    rand_fields(rng, fields, request=False)
+    fields = Fields(response=True)
+    rand_fields(rng, fields, request=False, small=small)
+    for _ in range(rng.choice([0, 0, 0, 1, 1, 2, 3])):
+        fields.add(rng, rng.choice([b"Connection", b"connection", b"CONNECTION"]),
+                   rng.choice([b"close", b"keep-alive", b"Keep-Alive", b"foo, Close", b"x-close-hint", b"", b"upgrade ,\tclose"]),
+                   at=rng.below(len(fields.items) + 1))
     nobody = method == b"HEAD" or status in (204, 304)
     blen = rng.choice([0, 1, 2, 3, 10, 17, 100, 300, 1000]) if not big else rng.choice([5000, 20000, 70000])
+    if small:
+        blen = rng.choice([0, 1, 2, 3, 5, 17])
     body = rand_body(rng, blen)
     kind = rng.choice(["cl", "cl", "chunked", "chunked", "chunked", "close", "te-close"])
     tail = b""
@@ -287,12 +296,14 @@ def client_ops(method, cap, segs, close):
     return ops
 
 
-def gen_client_valid(ctx, rng, n_streams, quick):
+def gen_client_valid(ctx, rng, n_streams, quick, n_small=0):
     cases = []
-    for sidx in range(n_streams):
-        big = (sidx % 40 == 39)
-        wire, exp, method, close_delim, hdr_len = gen_response(rng, big)
-        inter = gen_interims(rng)
+    all_cut = 0
+    for sidx in range(n_streams + n_small):
+        big = (sidx % 40 == 39) and sidx < n_streams
+        small = sidx >= n_streams
+        wire, exp, method, close_delim, hdr_len = gen_response(rng, big, small)
+        inter = gen_interims(rng) if not small else rng.choice([b"", b"", b"HTTP/1.1 100 Continue\r\n\r\n"])
         surplus = b"" if close_delim else rng.choice([b"", b"", b"", b"X", b"HTTP/1.1 200 OK\r\n\r\n", b"\r\n", rng.bytes(5)])
         nobody = method == b"HEAD" or exp.split()[0] in ("204", "304")
         stream = inter + wire + surplus
@@ -300,7 +311,12 @@ def gen_client_valid(ctx, rng, n_streams, quick):
         cap = rng.choice([len(stream), len(stream), len(stream) + 1, len(stream) + 8192, 1 << 20, 16 << 20])
         blocks = []
         ops = []
-        for segs in segmentations(rng, stream, quick, 60 if quick else 160, interesting=(len(inter), len(inter) + hdr_len, end)):
+        limit = 60 if quick else 160
+        if small and len(stream) <= 400:
+            limit = len(stream)                 # every single cut point of this stream
+        if len(stream) - 1 <= limit:
+            all_cut += 1
+        for segs in segmentations(rng, stream, quick, limit, interesting=(len(inter), len(inter) + hdr_len, end)):
             o = client_ops(method, cap, segs, True)
             # the generator knows what must come out of every op
             want = ["ok"]
@@ -322,7 +338,121 @@ def gen_client_valid(ctx, rng, n_streams, quick):
             ops += o
         cases.append({"cat": "client-valid", "ops": ops, "blocks": blocks, "stream_len": len(stream), "cap": cap,
                       "nseg": len(blocks), "close_delim": close_delim})
+        cases.append(gen_xr_case(rng, stream, method, exp, end, len(inter) + hdr_len, close_delim, quick, small))
+    cases.append(gen_xr_boundary(rng))
+    ctx.extra["client_streams"] = n_streams + n_small
+    ctx.extra["client_streams_with_every_single_cut"] = all_cut
     return cases
+
+
+XR_TIMEOUTS = [0]
+
+
+def xr_script(segs):
+    out = []
+    for s in segs:
+        if isinstance(s, str):
+            out.append(s)
+        else:
+            for i in range(0, max(len(s), 1), 60000):            # one engine delivery <= maxSyncReceiveBuffer of the scripted transport
+                out.append("d:" + hexs(s[i:i + 60000]))
+    return out
+
+
+def gen_xr_case(rng, stream, method, exp, end, hdr_end, close_delim, quick, small):
+    """The same stream through the REAL HttpClient::executeRequest over a scripted receiveSync: whole, cuts, and every
+    non-data arm of the receive loop (timeout / overflow / shutting down / other error / peer close) at a random position."""
+    n = len(stream)
+    ops, expect = [], []
+    segl = [[stream]]
+    for _ in range(4 if quick else 10):
+        c = rng.range(1, max(1, n - 1))
+        segl.append([stream[:c], stream[c:]])
+    for _ in range(2 if quick else 6):
+        cs = sorted(set(rng.below(n + 1) for _ in range(rng.range(2, 5))))
+        segl.append([stream[a:b] for a, b in zip([0] + cs, cs + [n])])
+    if small and n <= 200:
+        segl.append([stream[i:i + 1] for i in range(n)])
+    arms = ["o", "s", "e", "c"] + (["t"] if XR_TIMEOUTS[0] < (14 if quick else 60) and rng.chance(1, 6) else [])
+    for arm in arms:
+        if arm == "t":
+            XR_TIMEOUTS[0] += 1
+        c = rng.range(1, max(1, n - 1))
+        c2 = rng.range(c, n)
+        # (`e` is scripted as "the receiveSync call after this delivery fails": the delivery before it must not be empty)
+        segl.append([stream[:c], arm, stream[c:]] if (c2 == c or rng.chance(1, 2)) else [stream[:c], stream[c:c2], arm, stream[c2:]])
+    for segs in segl:
+        if not close_delim:
+            # nothing is scripted after the delivery that completes the message: what the engine delivers while executeRequest
+            # probes for residual data and returns is a race in ANY real run, not something a script can pin down
+            acc, cut = 0, None
+            for i, sg in enumerate(segs):
+                if isinstance(sg, str):
+                    break
+                acc += len(sg)
+                if acc >= end and len(sg):
+                    cut = i + 1
+                    break
+            if cut is not None:
+                segs = segs[:cut]
+        eff = rng.choice([n, n, n + 1, 1 << 20])
+        a, b = rng.choice([(eff, 0), (0, eff), (eff, max(0, eff - 1)), (max(0, eff - 7), eff), (eff, eff)])
+        reuse = rng.choice([1, 1, 0])
+        completes = (not close_delim) and not any(isinstance(x, str) for x in segs) and sum(len(x) for x in segs) >= end
+        entries = xr_script(segs + ([] if completes else ["c"]))
+        if completes:
+            got = 0
+            for i, e in enumerate(entries):          # (a segment above 60000 bytes is several deliveries)
+                got += (len(e) - 2) // 2 if e != "d:-" else 0
+                if got >= end:
+                    entries = entries[:i + 1]
+                    break
+        ops.append("xr %s %d %d %d %s" % (hexs(method), a, b, reuse, " ".join(entries)))
+        acc = 0
+        want = None
+        for s in segs:
+            if isinstance(s, str):
+                if s == "c" and close_delim and acc >= hdr_end:
+                    want = ("response", exp_prefix(exp, stream, hdr_end, acc), True)
+                else:
+                    want = {"t": ("fail timeout",), "o": ("error overflow",), "s": ("fail shuttingDown",), "e": ("fail closedEarly",), "c": ("fail closedEarly",)}[s]
+                break
+            acc += len(s)
+            if not close_delim and acc >= end and len(s):
+                want = ("response", exp, acc > end)
+                break
+        if want is None:
+            want = ("response", exp_prefix(exp, stream, hdr_end, acc), True) if close_delim else ("fail closedEarly",)
+        expect.append(want)
+    return {"cat": "client-xr", "ops": ops, "expect": expect, "stream_len": n, "nseg": len(ops)}
+
+
+def gen_xr_boundary(rng):
+    """A message that ends exactly on a receive-buffer boundary (8192 * k) with surplus bytes delivered together with it: the
+    surplus is not in the bytes frameResponse saw, only the transport still holds it - the connection must not be reused."""
+    ops, expect = [], []
+    for k in (1, 2, 1, 3):
+        total = 8192 * k
+        n = total
+        while True:
+            head = b"HTTP/1.1 200 OK\r\nContent-Length: %d\r\n\r\n" % n
+            if len(head) + n == total:
+                break
+            n -= 1
+            if n < 0:
+                raise RuntimeError("no body length fits")
+        body = rng.bytes(n)
+        surplus = rng.choice([b"X", b"HTTP/1.1 200 OK\r\n\r\n", rng.bytes(9000)])
+        exp = "200 %s %s %s %s" % (hexs(b"1.1"), hexs(b"OK"), show_headers([(b"Content-Length", b"%d" % n)]), digest(body))
+        ops.append("xr %s %d 0 1 %s" % (hexs(b"GET"), 1 << 20, " ".join(xr_script([head + body + surplus]))))
+        expect.append(("response", exp, True))
+    return {"cat": "client-xr", "ops": ops, "expect": expect, "stream_len": 0, "nseg": len(ops)}
+
+
+def exp_prefix(exp, stream, end, acc):
+    """close-delimited body cut short by an early peer close: the body is what had arrived"""
+    parts = exp.rsplit(" ", 1)
+    return parts[0] + " " + digest(stream[end:acc])
 
 
 def invalid_length_responses(rng):
@@ -383,7 +513,7 @@ def mutate(rng, w, hot):
         elif k == 1 and at < len(w):
             del w[at]
         elif k == 2:
-            w[at:at] = rng.choice([b"\r", b"\n", b"\r\n", b" ", b"\t", b":", b",", b";", b"0", b"f", b"-", b"+", b"\x00", b"\xff", b"\r\n\r\n"])
+            w[at:at] = rng.choice([b"\r", b"\n", b"\r\n", b" ", b"\t", b":", b" :", b",", b";", b"0", b"f", b"-", b"+", b"\x00", b"\xff", b"\r\n\r\n"])
         elif k == 3 and at < len(w):
             w[at] = rng.choice(b"\r\n :;,0123456789abcdefABCDEFxX-+\x00\xff\t")
         elif k == 4 and len(w) > 2:
@@ -478,24 +608,36 @@ def gen_client_direct(ctx, rng, n):
 
 
 # ------------------------------------------------------------------ server cases
-def gen_request(rng, big=False):
+def gen_request(rng, big=False, small=False, last=True):
     """(wire, expected handler event or None for OPTIONS *), body framing kind"""
     mi = rng.choice([0, 0, 1, 1, 2, 3, 4, 5, 6, 8])
     method = METHODS[mi].encode()
     path = b"/" + b"/".join(rand_token(rng, 1, 6) for _ in range(rng.range(0, 3)))
-    query = rng.choice([b"", b"", b"?a=1", b"?x=%20&y", b"?"])
-    if rng.chance(1, 30):
-        path = bytes(rng.choice(b"/abc\x80\xff~%") for _ in range(rng.range(1, 9)))
+    query = rng.choice([b"", b"", b"?a=1", b"?x=%20&y", b"?", b"?t=12:30:00&u=a:b", b"?:"])
+    tform = rng.below(12)
+    if tform == 0:
+        path = bytes(rng.choice(b"/abc\x80\xff~%:") for _ in range(rng.range(1, 9)))
         path = b"/" + path.replace(b"?", b"")
-    version = rng.choice([b"HTTP/1.1", b"HTTP/1.1", b"HTTP/1.0"])
+    elif tform in (1, 2):
+        # absolute-form: the request line contains `:` before any field line does
+        path = rng.choice([b"http://h:80", b"http://example.com:8080", b"https://[::1]:443", b"content-length://x", b"http://u:p@h"]) + path
+    elif tform == 3:
+        mi, method, path, query = 7, b"CONNECT", rng.choice([b"h:443", b"example.com:80", b"[::1]:8443"]), b""      # authority-form
+    elif tform == 4:
+        path = path + rng.choice([b":", b":colon", b";a:b"])
+    # HTTP/1.0 (close-by-default) only on the last request of a pipeline: what the server does to the connection after
+    # answering is C16's business and must not change what this check expects
+    version = rng.choice([b"HTTP/1.1", b"HTTP/1.1", b"HTTP/1.0"]) if last else b"HTTP/1.1"
     fields = Fields()
-    rand_fields(rng, fields, request=True)
+    rand_fields(rng, fields, request=True, small=small)
     fl = fields
 
     def place(name, value, pad=True):
         fl.add(rng, name, value, pad=pad, at=rng.below(len(fl.items) + 1))
     place(rng.choice([b"Host", b"host", b"HOST"]), rng.choice([b"a", b"example.com:8080", b"[::1]"]))
     blen = rng.choice([0, 0, 1, 2, 3, 10, 17, 100, 300, 1000]) if not big else rng.choice([5000, 20000, 70000])
+    if small:
+        blen = rng.choice([0, 1, 2, 3, 5, 17])
     body = rand_body(rng, blen)
     kind = rng.choice(["none", "cl", "cl", "chunked", "chunked"])
     if kind == "none":
@@ -518,11 +660,14 @@ def server_ops(segs):
     return ["sv reset"] + ["sv data %s" % hexs(s) for s in segs]
 
 
-def gen_server_valid(ctx, rng, n_streams, quick):
+def gen_server_valid(ctx, rng, n_streams, quick, n_small=0):
     cases = []
-    for sidx in range(n_streams):
-        big = (sidx % 40 == 39)
-        reqs = [gen_request(rng, big and k == 0) for k in range(rng.choice([1, 1, 2, 3, 4]))]
+    all_cut = 0
+    for sidx in range(n_streams + n_small):
+        big = (sidx % 40 == 39) and sidx < n_streams
+        small = sidx >= n_streams
+        nreq = rng.choice([1, 1, 2, 3, 4]) if not small else rng.choice([1, 1, 2])
+        reqs = [gen_request(rng, big and k == 0, small, last=(k == nreq - 1)) for k in range(nreq)]
         stream = b"".join(r[0] for r in reqs)
         ends = []
         acc = 0
@@ -530,12 +675,17 @@ def gen_server_valid(ctx, rng, n_streams, quick):
             acc += len(r[0])
             ends.append(acc)
         partial = b""
-        if rng.chance(1, 4):
+        if rng.chance(1, 4) and not small:
             w2 = gen_request(rng)[0]
             partial = w2[:rng.range(0, len(w2) - 1)]                     # an incomplete request stays buffered
         stream += partial
         blocks, ops = [], []
-        for segs in segmentations(rng, stream, quick, 40 if quick else 120, interesting=ends):
+        limit = 40 if quick else 120
+        if small and len(stream) <= 500:
+            limit = len(stream)                 # every single cut point of this pipeline
+        if len(stream) - 1 <= limit:
+            all_cut += 1
+        for segs in segmentations(rng, stream, quick, limit, interesting=ends):
             o = server_ops(segs)
             want = ["ok"]
             acc = 0
@@ -551,6 +701,8 @@ def gen_server_valid(ctx, rng, n_streams, quick):
             ops += o
         cases.append({"cat": "server-valid", "ops": ops, "blocks": blocks, "stream_len": len(stream), "nreq": len(reqs), "nseg": len(blocks),
                       "kinds": [r[2] for r in reqs]})
+    ctx.extra["server_streams"] = n_streams + n_small
+    ctx.extra["server_streams_with_every_single_cut"] = all_cut
     return cases
 
 
@@ -568,6 +720,15 @@ def invalid_length_requests(rng):
     out.append(("cl-conflict3", R + b"Content-Length: 6\r\ncontent-length: 5\r\n\r\nhello!" + follow))
     out.append(("cl+te", R + b"Content-Length: 5\r\nTransfer-Encoding: chunked\r\n\r\n5\r\nhello\r\n0\r\n\r\n" + follow))
     out.append(("te+cl", R + b"Transfer-Encoding: chunked\r\nContent-Length: 5\r\n\r\n5\r\nhello\r\n0\r\n\r\n" + follow))
+    chunked_body = b"5\r\nhello\r\n0\r\n\r\n"
+    smuggled = b"GET /smuggled HTTP/1.1\r\nHost: a\r\n\r\n"
+    for name, te, body in [("te-substring", b"notchunkedy", chunked_body), ("te-substring2", b"xchunked", chunked_body), ("te-param", b"chunked;q=1", chunked_body),
+                           ("te-gzip-body-is-next-request", b"gzip", smuggled), ("te-chunked-not-final", b"chunked, gzip", chunked_body),
+                           ("te-identity", b"identity", smuggled), ("te-empty", b"", smuggled), ("te-commas", b" , ,", smuggled),
+                           ("te-gzip+cl", b"gzip\r\nContent-Length: 5", b"hello")]:
+        out.append((name, R + b"Transfer-Encoding: " + te + b"\r\n\r\n" + body + follow))
+    out.append(("te-two-lines-last-not-chunked", R + b"Transfer-Encoding: chunked\r\nTransfer-Encoding: gzip\r\n\r\n" + chunked_body + follow))
+
     def ch(body):
         return R + b"Transfer-Encoding: chunked\r\n\r\n" + body
     for name, b in [("no-digits", b"\r\nabc\r\n0\r\n\r\n"), ("junk-after-size", b"3x\r\nabc\r\n0\r\n\r\n"), ("0x", b"0x3\r\nabc\r\n0\r\n\r\n"),
@@ -695,15 +856,33 @@ def server_events(lines):
     return evs
 
 
+def framing_view(l):
+    if " | io=" not in l:
+        return l
+    evs = [e for e in l.split(" | ")[0].split(",") if e.startswith("R/")]
+    alive = "alive=1" in l
+    return (evs, l.split("buf=")[1].split()[0] if alive else None)
+
+
 def monitor_case(c, impl):
     bad = []
     cat = c["cat"]
     for i, l in enumerate(impl):
         if l.startswith("throw") or l.startswith("crash:") or l == "hang" or "unknown-message" in l or l == "error emptyCL":
-            what = "hang (framing call did not return within 2 s)" if (l == "hang" or l == "crash:timeout" or l == "crash:exit:97") else l
+            what = "hang (framing call burnt 5 s of CPU or did not return within 60 s)" if (l == "hang" or l == "crash:timeout" or l == "crash:exit:97") else l
             bad.append("F3/S7: input makes the endpoint loop/throw/crash: op `%s` -> %s" % (c["ops"][i][:90], what[:80]))
             break
-    if cat.startswith("client"):
+    if cat == "client-xr":
+        # the REAL executeRequest: what it returns / throws for the scripted reads must be what the generator encoded
+        for op, l, w in zip(c["ops"], impl, c["expect"]):
+            if w[0] == "response":
+                if not l.startswith("response " + w[1] + " closed="):
+                    bad.append("F1(executeRequest): returned `%s`, encoded `response %s` for `%s`" % (l[:160], w[1][:120], op[:80]))
+                elif w[2] and not l.endswith("closed=1"):
+                    bad.append("F1(executeRequest): surplus bytes / close-delimited body but the connection was kept for reuse: `%s`" % op[:100])
+            elif not l.startswith(w[0] + " closed=1"):
+                bad.append("F3(executeRequest): receive-loop arm: got `%s`, expected `%s closed=1` for `%s`" % (l[:120], w[0], op[:100]))
+    elif cat.startswith("client"):
         blocks = block_lines(c, impl)
         base = None
         for a, lines, want in blocks:
@@ -746,8 +925,10 @@ def monitor_case(c, impl):
                     if b > MAX_BUFFER:
                         bad.append("S3: session buffer %d exceeds MAX_BUFFER_SIZE" % b)
             if want is not None:
+                # only what C15 is about: which requests reach the handler (method, path, fields, body), in which op, and the
+                # bytes left in the buffer - not the response status or what happens to the connection afterwards (C16)
                 for j, (l, w) in enumerate(zip(lines, want)):
-                    if l != w:
+                    if framing_view(l) != framing_view(w):
                         bad.append("S1: op %d: requests handed to the application differ from those encoded: got `%s` want `%s`" % (a + j, l[:200], w[:200]))
                         break
             if cat == "server-invalid-length":
@@ -771,10 +952,18 @@ OBLIGATIONS = [
      "statement": "client exactness: interims ++ render m ++ x (Content-Length / chunked with extensions+trailers / no-body) yields exactly status, reason, version, header map and body of m; forceEvict <-> x != []"},
     {"id": "C15_F1c", "theorem": "Iora.C15.F1_exact_close", "kind": "proved",
      "statement": "client exactness, close-delimited body: the body is everything up to the peer's close, forceEvict set"},
+    {"id": "C15_F1n", "theorem": "Iora.C15.F1_exact_nobody", "kind": "proved",
+     "statement": "client exactness for HEAD/204/304: ANY well-formed field list (incl. Content-Length / Transfer-Encoding lines) is accepted, no body is read"},
+    {"id": "C15_F1s", "theorem": "Iora.C15.F1_exact_any_segmentation", "kind": "proved",
+     "statement": "client: F1 under ANY segmentation of the stream (corollary of F1 and F2)"},
     {"id": "C15_F2a", "theorem": "Iora.C15.F2_any_segmentation_eq_whole", "kind": "proved",
      "statement": "client: feeding any segmentation through the carried loop state (headerScanPos, ChunkState) = framing the whole stream (resumption: the carried state is a function of the accumulated bytes)"},
     {"id": "C15_F2", "theorem": "Iora.C15.F2_segmentation_independent", "kind": "proved",
      "statement": "client: two segmentations of one stream (then peer close) give the same response / framing error / closed-early outcome"},
+    {"id": "C15_F3d", "theorem": "Iora.C15.F3_loop_ends_on_error", "kind": "proved",
+     "statement": "client: Timeout / BufferOverflow / ShuttingDown / other error / PeerClosed never continue the receive loop; overflow is the non-retryable framing error; PeerClosed completes only a close-delimited body"},
+    {"id": "C15_F3e", "theorem": "Iora.C15.F3_connection_dropped", "kind": "proved",
+     "statement": "client: after the loop the connection is dropped for every error outcome and for every response with surplus bytes / a close-delimited body"},
     {"id": "C15_F4a", "theorem": "Iora.C15.F4_content_length_sound", "kind": "proved",
      "statement": "client: a Content-Length value is accepted only if every comma element is 1*DIGIT < 2^64 and all are equal"},
     {"id": "C15_F4b", "theorem": "Iora.C15.F4_framing_sound", "kind": "proved",
@@ -810,7 +999,9 @@ OBLIGATIONS = [
     {"id": "C15_S3c", "theorem": "Iora.C15.S3_header_too_long", "kind": "proved",
      "statement": "server: a header section longer than MAX_HEADER_SIZE closes the connection"},
     {"id": "C15_S6", "theorem": "Iora.C15.S6_lengths_valid", "kind": "proved",
-     "statement": "server: dispatched => every Content-Length line is 1*DIGIT < 2^64, all equal, and not combined with chunked TE (after F25)"},
+     "statement": "server: dispatched => every Content-Length line is 1*DIGIT < 2^64, all equal; any Transfer-Encoding has final coding exactly `chunked` and then there is no Content-Length (after F25, FC15a)"},
+    {"id": "C15_S6b", "theorem": "Iora.C15.S6b_chunk_size_sound", "kind": "proved",
+     "statement": "server: an accepted chunk-size line denotes a size <= MAX_BODY_SIZE (the accumulator cannot wrap)"},
     {"id": "C15_S7", "theorem": "Iora.C15.S7_chunk_scan_progress", "kind": "proved",
      "statement": "server: the chunk scan is total; every continuing iteration strictly advances pos within the buffer (after F26)"},
     {"id": "C15_F26w", "theorem": "Iora.C15.F26_original_arithmetic_wraps", "kind": "proved",
@@ -825,13 +1016,14 @@ def have_model(ctx):
 
 def gen_all(ctx, quick, scale):
     rng = ctx.rng
+    XR_TIMEOUTS[0] = 0
     cases = load_corpus()
-    cases += gen_client_valid(ctx, rng.fork("cv"), 160 * scale, quick)
+    cases += gen_client_valid(ctx, rng.fork("cv"), 120 * scale, quick, n_small=100 * scale)
     cases += gen_client_invalid(ctx, rng.fork("ci"), quick)
     cases += gen_client_mutated(ctx, rng.fork("cm"), 400 * scale, quick)
     cases += gen_client_cap(ctx, rng.fork("cc"), 25 * scale, quick)
     cases += gen_client_direct(ctx, rng.fork("cd"), 150 * scale)
-    cases += gen_server_valid(ctx, rng.fork("sv"), 120 * scale, quick)
+    cases += gen_server_valid(ctx, rng.fork("sv"), 90 * scale, quick, n_small=70 * scale)
     cases += gen_server_invalid(ctx, rng.fork("si"), quick)
     cases += gen_server_mutated(ctx, rng.fork("sm"), 300 * scale, quick)
     cases += gen_server_caps(ctx, rng.fork("sc"), quick)
@@ -862,13 +1054,19 @@ def run(ctx: Ctx):
         n_mismatch = 0
         framing_calls = 0
         segs_compared = 0
+        xr_calls = 0
         for c, impl, model in res:
             dist[c["cat"]] = dist.get(c["cat"], 0) + 1
             framing_calls += sum(1 for o in c["ops"] if not o.endswith("reset") and " reset " not in o)
             segs_compared += c.get("nseg", 0)
-            for a, lines, _ in block_lines(c, impl):
-                ops = c["ops"][a:a + len(lines)] if "blocks" in c else c["ops"]
-                ctx.count_case("\n".join(ops), nontrivial=any(not (l.startswith("more ") or l in ("ok", "done") or l.startswith("- | io=- ")) for l in lines))
+            if c["cat"] == "client-xr":
+                xr_calls += len(c["ops"])
+                for o in c["ops"]:
+                    ctx.count_case(o, nontrivial=True)
+            else:
+                for a, lines, _ in block_lines(c, impl):
+                    ops = c["ops"][a:a + len(lines)] if "blocks" in c else c["ops"]
+                    ctx.count_case("\n".join(ops), nontrivial=any(not (l.startswith("more ") or l in ("ok", "done") or l.startswith("- | io=- ")) for l in lines))
             if len(ctx.cov["samples"]) < 6 and ctx.rng.chance(1, 40):
                 ctx.sample({"cat": c["cat"], "ops": [o[:200] for o in c["ops"][:4]], "impl": [l[:200] for l in impl[:4]]})
             fails = monitor_case(c, impl)
@@ -888,25 +1086,46 @@ def run(ctx: Ctx):
                                    "ops": c["ops"][lo:i + 1], "observed": impl[lo:i + 1], "expected_by_model": model[lo:i + 1], "category": c["cat"]},
                                   found_input=False)
         ctx.extra["framing_calls"] = framing_calls
+        ctx.extra["real_executeRequest_calls"] = xr_calls
         ctx.extra["segmentations_compared"] = segs_compared
     ctx.extra["input_distribution"] = dist
     ctx.extra["repo_tree_sha"] = ctx.repo_tree_sha(ANCHOR_FILES)
     ctx.extra["not_proved"] = [
-        "server S1_request_exact / S1_extract_exact are stated for request lines without ':' (origin-form targets); absolute-form targets (http://host:port/...) are covered by lockstep and the S1 monitor only",
+        "\"never throws out of the I/O thread\" has no theorem: the models are total functions whose outcomes are enumerated, but that C++ expressions outside the "
+        "modelled decisions do not throw (allocation, std::string/iostream internals, handlers) is only observed - the harness catches and reports every exception "
+        "that leaves handleIncomingData / executeRequest other than the modelled ones",
+        "client F1: Content-Length given as an identical duplicate field or as a list (`5, 5`) is covered by generator + lockstep + monitor only (RespWF admits one framing field); "
+        "HEAD/204/304 with arbitrary fields is F1_exact_nobody",
         "server: error statuses of malformed requests (400/414/501/505) are modelled and lockstep-checked, not characterised by theorems (response formation is C16)",
+        "server paths outside the model: the 503 answer when the thread pool refuses the task, sessions upgraded to WebSocket (C18), closeSession while the server shuts down, "
+        "the worker's close after a parser-rejected request (S2 is about the I/O thread's closes)",
         "client F2 is stated for streams that fit the cap (no prefix trips the cap check); with interim 1xx responses and a total above the cap the cap check is segmentation-dependent by design (erased interims no longer count)",
-        "wall-clock bound per framing call is measured by the 2 s watchdog, termination itself is a theorem (total functions with strictly decreasing measures)"]
-    ctx.assumptions += ["the receive loop of executeRequest is replicated in the harness (8 lines: append, cap check, frameResponse, PeerClosed arm); its shape is pinned by the translator",
+        "wall-clock bound per framing call is measured by the watchdog (5 s CPU / 60 s wall), termination itself is a theorem (total functions with strictly decreasing measures)"]
+    ctx.assumptions += ["client: HttpClient::executeRequest itself is executed (xr ops) over a Transport whose engine is scripted: connect, send, every receiveSync result (data in the scripted pieces, "
+                        "PeerClosed, Timeout, BufferOverflow, ShuttingDown, Cancelled), effectiveCap, the frameResponse arguments and the reuse/evict decision are the real code; "
+                        "the per-read `cl feed` ops additionally compare the carried state through a replica of the loop body",
                         "server: requests are dispatched to a pool of which all workers but one are parked, so handlers run in dispatch order (response ordering is C16)",
-                        "the scripted engine records close()/send calls; the harness erases the session after a close as the engine's close callback would"]
+                        "the scripted engine records close()/send calls; the harness erases the session after a close as the engine's close callback would",
+                        "::tolower in handleIncomingData is modelled as ASCII folding (C locale; the process never calls setlocale)",
+                        "MAX_BODY_SIZE (10 MiB) is unreachable behind MAX_BUFFER_SIZE (1 MiB): the effective per-request cap is the buffer cap; a request above it is closed, never mis-framed "
+                        "(judged a configuration inconsistency, not a C15 violation: the statement bounds buffering by the configured caps and quantifies bodies up to the cap)"]
     return ctx.finish(level="proof", rule="a case = one generated byte stream fed to the real framing code under a family of segmentations (whole, every single cut or a sample of cuts, "
-                      "random multi-cuts, 1-byte drip), or a batch of direct calls of the private helpers; evaluations = blocks (one segmentation each); "
+                      "random multi-cuts, 1-byte drip), the same stream through the real executeRequest over scripted reads (xr), or a batch of direct calls of the private helpers; evaluations = blocks (one segmentation each); "
                       "distinct = distinct op lists; non-trivial = at least one answer other than more/ok/done/no-event")
 
 
 def report_property(ctx, hb, c, impl, model, fails):
     ops = c["ops"]
     what = fails[0]
+    if what.startswith("F3/S7") and "hang" in what:
+        # a watchdog answer is only believed if it reproduces when the case runs alone (a stalled machine is machinery, not a finding)
+        out, rc, err = ctx.run_lines([hb], ops, timeout=900)
+        if "hang" not in out and not any(l.startswith("throw") for l in out) and rc == 0:
+            ctx.notes.append("watchdog fired once and did not reproduce (machinery): %s" % ops[0][:80])
+            fails = [f for f in monitor_case(c, out) if not (f.startswith("F3/S7") and "hang" in f)]
+            if not fails:
+                return
+            what = fails[0]
     if not ctx.violation_budget("property", what):
         ctx.violation("property", what)
         return
